@@ -36,7 +36,7 @@ def run(tier, v):
     cov["mutant_designs_violate"] = mut
     h = vlib.build_harness(["c13"])
     out = os.path.join(vlib.scratch(), "c13")
-    s = vlib.run_driver(h, "c13_relay", out, {"runs": 480 if quick else 8000, "shards": 16}, timeout=3000)
+    s = vlib.run_driver(h, "c13_relay", out, {"runs": 480 if quick else 40000, "shards": 16}, timeout=3000)
     files = sorted(glob.glob(os.path.join(out, "shard-*", "trace.ndjson")))
     scen = {}
     for f in glob.glob(os.path.join(out, "shard-*", "scenarios.json")):
